@@ -84,30 +84,45 @@ def storeLoc : Loc → Val → M Unit
     let (a, p) ← resolve l
     writeAt a p v
 
-def binop (op : BinOp) (a b : Val) : M Val :=
+/-- an outcome that does not depend on the store -/
+def liftE {α} : Except Err α → M α
+  | .ok a => pure a
+  | .error e => throwE e
+
+def rtE {α} (f : α → Val) : Except RtErr α → Except Err Val
+  | .ok a => .ok (f a)
+  | .error e => .error (.panic (.rt e))
+
+/-- binary operators on values (store-independent; used by the evaluator and
+by the constant folder) -/
+def binopE (op : BinOp) (a b : Val) : Except Err Val :=
   match op, a, b with
   | .ar o, .int t x, .int t' y =>
-    if t = t' then do let r ← liftRt (arith t o x y); pure (.int t r) else stuck "mixed integer types"
-  | .ar .add, .str x, .str y => pure (.str (x ++ y))
-  | .concat, .str x, .str y => pure (.str (x ++ y))
+    if t = t' then rtE (Val.int t) (arith t o x y) else .error (.stuck "mixed integer types")
+  | .ar .add, .str x, .str y => .ok (.str (x ++ y))
+  | .concat, .str x, .str y => .ok (.str (x ++ y))
   | .cmp o, .int t x, .int t' y =>
-    if t = t' then pure (.bool (cmpInt t o x y)) else stuck "mixed integer types"
-  | .cmp o, .str x, .str y => pure (.bool (cmpOrd o (cmpBytes x y)))
+    if t = t' then .ok (.bool (cmpInt t o x y)) else .error (.stuck "mixed integer types")
+  | .cmp o, .str x, .str y => .ok (.bool (cmpOrd o (cmpBytes x y)))
   | .cmp .eq, x, y => match valEq eqFuel x y with
-    | some r => pure (.bool r) | none => stuck "== on uncomparable values"
+    | some r => .ok (.bool r) | none => .error (.stuck "== on uncomparable values")
   | .cmp .ne, x, y => match valEq eqFuel x y with
-    | some r => pure (.bool !r) | none => stuck "!= on uncomparable values"
-  | .shl, .int t x, .int tn n => do let r ← liftRt (shift t true x tn n); pure (.int t r)
-  | .shr, .int t x, .int tn n => do let r ← liftRt (shift t false x tn n); pure (.int t r)
-  | _, _, _ => stuck "bad operands"
+    | some r => .ok (.bool !r) | none => .error (.stuck "!= on uncomparable values")
+  | .shl, .int t x, .int tn n => rtE (Val.int t) (shift t true x tn n)
+  | .shr, .int t x, .int tn n => rtE (Val.int t) (shift t false x tn n)
+  | _, _, _ => .error (.stuck "bad operands")
 
-def unop (op : UnOp) (a : Val) : M Val :=
+def binop (op : BinOp) (a b : Val) : M Val := liftE (binopE op a b)
+
+def unopE (op : UnOp) (a : Val) : Except Err Val :=
   match op, a with
-  | .not, .bool b => pure (.bool !b)
-  | .neg, .int t x => pure (.int t (unInt t .neg x))
-  | .compl, .int t x => pure (.int t (unInt t .compl x))
-  | .pos, .int t x => pure (.int t x)
-  | _, _ => stuck "bad operand"
+  | .not, .bool b => .ok (.bool !b)
+  | .neg, .int t x => .ok (.int t (unInt t .neg x))
+  | .compl, .int t x => .ok (.int t (unInt t .compl x))
+  | .pos, .int t x => .ok (.int t x)
+  | _, _ => .error (.stuck "bad operand")
+
+def unop (op : UnOp) (a : Val) : M Val := liftE (unopE op a)
 
 /-! untyped constant expressions: exact integers; bitwise operators through a
 two's-complement window far wider than any constant the generator emits -/
